@@ -199,8 +199,11 @@ class SmtLibSolver(Solver): # TODO this class is defined twice in pysmt. Here an
         formula = formula.simplify()
         sorts = self.to.get_types(formula, custom_only=True)
         for s in sorts:
-            if all(s not in ds for ds in self.declared_sorts):
-                self._declare_sort(s)
+            # A sort is declared through its constructor, once for all
+            # its instances: (declare-sort Pair 2) for Pair{Int, Real}
+            decl = s.decl
+            if all(decl not in ds for ds in self.declared_sorts):
+                self._declare_sort(decl)
         deps = formula.get_free_variables()
         for d in deps:
             if all(d not in dv for dv in self.declared_vars):
